@@ -91,8 +91,6 @@ def gen_entities():
     import html
     from html.entities import html5
     from bs4.dammit import EntitySubstitution as E
-    from bs4.formatter import HTMLFormatter, XMLFormatter
-
     amp_parts, ok1 = parse_pattern(E.CHARACTER_TO_HTML_ENTITY_WITH_AMPERSAND_RE.pattern)
     parts, ok2 = parse_pattern(E.CHARACTER_TO_HTML_ENTITY_RE.pattern)
     # canonical order (sorted by key): the order inside the pattern comes from iterating a `set` of str and differs
@@ -106,10 +104,17 @@ def gen_entities():
                 and E.ANY_ENTITY_RE.pattern == "&(#\\d+|#x[0-9a-fA-F]+|\\w+);"
                 and E.ANY_ENTITY_RE.flags == (re.U | re.I))
 
+    so = getattr(E, "SEMICOLON_OPTIONAL_ENTITY_RE", None)
+    legacy = so.pattern.split("|") if so is not None else []
+    legacy_ok = so is not None and so.flags == re.U and all(re.fullmatch("[A-Za-z][A-Za-z0-9]*", x) for x in legacy)
+    fixed_ok = (fixed_ok and legacy_ok and getattr(E, "ENTITY_NAME_RE", None) is not None
+                and E.ENTITY_NAME_RE.pattern == "[a-zA-Z][-.a-zA-Z0-9]*" and E.ENTITY_NAME_RE.flags == re.U
+                and E.AMPERSAND_RE.pattern == "&" and E.AMPERSAND_RE.flags == re.U)
+
     def plist(ps):
         return [f"⟨{lean_nat_list(k)}, {lean_nat_list(la)}⟩" for k, la in ps]
 
-    t = HEADER + "import BSModel.Model.Entities\nnamespace BS.Gen\nopen BS.Entities\n"
+    t = HEADER + "import BSModel.Model.Entities\nnamespace BS.Gen.C09\nopen BS.Entities\n"
     t += "/-- particles of CHARACTER_TO_HTML_ENTITY_WITH_AMPERSAND_RE.pattern, canonical order -/\n"
     t += chunked_def_r("particlesAmp", "Particle", plist(amp_parts))
     t += "/-- particles of CHARACTER_TO_HTML_ENTITY_RE.pattern, canonical order -/\n"
@@ -147,9 +152,21 @@ def gen_entities():
     t += chunked_def_r("wordRanges", "Nat × Nat", [f"({a}, {b})" for a, b in ranges(lambda c: w.match(chr(c)) is not None)])
     t += "/-- code point ranges matched by re's \\d (str pattern) -/\n"
     t += chunked_def_r("digitRanges", "Nat × Nat", [f"({a}, {b})" for a, b in ranges(lambda c: d.match(chr(c)) is not None)])
+    t += "/-- alternatives of SEMICOLON_OPTIONAL_ENTITY_RE.pattern (empty when the tree under test has no such regex) -/\n"
+    t += chunked_def_r("legacy", "PStr", [lean_nat_list(code(x)) for x in sorted(legacy)])
     t += ("def htmlTable : Tbl := { particles := particles, particlesAmp := particlesAmp, toName := toName, toChar := toChar, "
           "html5 := html5, cp1252 := cp1252, invalidCharrefs := invalidCharrefs, invalidCodepoints := invalidCodepoints, "
-          "word := wordRanges, digit := digitRanges }\n")
+          "word := wordRanges, digit := digitRanges, legacy := legacy }\n")
+    t += "end BS.Gen.C09\n"
+    yield "Entities.lean", t
+
+
+def gen_formatters():
+    """the formatter registries and the defaults of `cdata_containing_tags` (small file of its own: a change here must not
+    force the big entity tables to be re-elaborated)"""
+    from bs4.dammit import EntitySubstitution as E
+    from bs4.formatter import Formatter, HTMLFormatter, XMLFormatter
+    t = HEADER + "import BSModel.Model.Entities\nnamespace BS.Gen.C09\nopen BS.Entities\n"
     # formatter registry: name -> which substitution function
     fn_code = {None: 0}
     for i, nm in enumerate(["substitute_xml", "substitute_html", "substitute_html5",
@@ -173,8 +190,16 @@ def gen_entities():
     t += "    (0 None, 1 substitute_xml, 2 substitute_html, 3 substitute_html5, 4 …_containing_entities, 5 …_html5_raw, 99 other), cdata_containing_tags -/\n"
     t += f"def htmlRegistry : List RegEntry := {reg(HTMLFormatter.REGISTRY)}\n"
     t += f"def xmlRegistry : List RegEntry := {reg(XMLFormatter.REGISTRY)}\n"
-    t += "end BS.Gen\n"
-    yield "Entities.lean", t
+    def names(xs):
+        return "[" + ", ".join(lean_nat_list(code(x)) for x in sorted(xs)) + "]"
+
+    t += "/-- Formatter.HTML_DEFAULTS['cdata_containing_tags'] -/\n"
+    t += f"def htmlDefaultCdata : List PStr := {names(Formatter.HTML_DEFAULTS['cdata_containing_tags'])}\n"
+    t += "/-- cdata_containing_tags of Formatter(language='xml') and of Formatter(language='html') built with the option left at None -/\n"
+    t += f"def xmlFormatterCdata : List PStr := {names(Formatter(language=Formatter.XML).cdata_containing_tags)}\n"
+    t += f"def htmlFormatterCdata : List PStr := {names(Formatter(language=Formatter.HTML).cdata_containing_tags)}\n"
+    t += "end BS.Gen.C09\n"
+    yield "EntitiesFormatters.lean", t
 
 
-ALL = [gen_entities]
+ALL = [gen_entities, gen_formatters]
